@@ -111,7 +111,7 @@ def W(pid, toolchain=None):
 
 # ---------------------------------------------------------------------------------------------
 LEAK_ALL = leak("LK", (), 54, all_fns=True)
-LEAK_SCOPED = leak("R3", ("ACQ-SCOPED",), 26)
+LEAK_SCOPED = leak("R3", ("ACQ-SCOPED", "ACQ-KEYED"), 26)
 
 prop("C01",
      [cg.rule_L1, sem.rule_L2, st.rule_L4, sem.rule_E2, st.rule_E1, sig.rule_O1, sig.rule_O3, st.rule_N5, ts.rule_SD, ts2.rule_K1, cg.rule_K2, ts2.rule_R5, ts2.rule_R3key, ts2.rule_R1, ts2.rule_R7,
@@ -125,18 +125,19 @@ prop("C01",
      "absence of deadlock as a behaviour over all schedules and programs; progress of the retry loop (livelock).")
 
 prop("C02",
-     [ts.rule_T1, ts.rule_T2, pos.rule_P1, st2.rule_D1, st.rule_M1, st.rule_E1, st.rule_O2, ts.rule_M4, A("rule_Q3"), st.rule_M2, st.rule_DELEG, sem.rule_E2, A("rule_E5"), ts2.rule_X3],
+     [ts.rule_T1, ts.rule_T2, pos.rule_P1, st2.rule_D1, st.rule_M1, st.rule_E1, st.rule_O2, ts.rule_M4, A("rule_Q3"), st.rule_M2, st.rule_DELEG, sem.rule_E2, A("rule_E5"), ts2.rule_X3, ts2.rule_X4],
      "T1 every guard()/data_mut()/hold construction/protected-cell access is preceded on its path by a successful acquisition of "
      "the same receiver in the matching mode (path-sensitive typestate over every safe or acquiring function, eager arguments "
      "included); T2 user closures run only while held; P1 position k of every container guard is member k; D1 guard Deref targets "
      "the cell of the lock its Drop releases; E1 the locks acquired are exactly the members' leaves; M4/Q3 no release is ever issued "
      "for a receiver the call does not hold (a stray release would free another thread's exclusive hold); M2/E2d/E2 every "
-     "implementation of an HL op acquires/releases in the mode its name promises (the API-level analysis relies on it).",
+     "implementation of an HL op acquires/releases in the mode its name promises (the API-level analysis relies on it); X4 a "
+     "function that takes a guard and returns a guard never releases or re-takes the lock in between (one section stays one).",
      "mutual exclusion and per-lock value continuity as observed over interleavings/histories (they follow from the raw lock's "
      "contract plus these rules, by argument not by check).")
 
 prop("C03",
-     [ts2.rule_R1, sig.rule_R2, LEAK_SCOPED, ts2.rule_R3key, ts2.rule_R4, ts2.rule_R5, ts.rule_M4, A("rule_E5"), A("rule_Y3"), st.rule_M5, ts2.rule_R6, st.rule_X1, ts2.rule_R7, sig.rule_S3],
+     [ts2.rule_R1, sig.rule_R2, LEAK_SCOPED, ts2.rule_R3key, ts2.rule_R4, ts2.rule_R5, ts.rule_M4, A("rule_E5"), A("rule_Y3"), st.rule_M5, ts2.rule_R6, st.rule_X1, ts2.rule_R7, sig.rule_S3, ts2.rule_K1, cg.rule_K2],
      "R1 unlock-style APIs release every lock of the consumed guard before returning its key; R2 key field declared after hold "
      "fields in every guard (drop order); R3 scoped calls hold nothing at return and at every unwinding exit; R3k the key outlives "
      "the closure; R4 a failed try returns Err(key) holding nothing and without running user code; R5 guard-returning APIs move the "
@@ -144,7 +145,9 @@ prop("C03",
      "failure; Y3 the retrying collection never starts a blocking acquisition while it still holds a member; M5 a leaf lock's "
      "acquiring op never panics after its raw acquisition returned (the key would come back while the raw lock stays locked); X1 a "
      "leaf try reports exactly what the raw try did (a `false` while the raw lock was taken hands the key back with the lock held); "
-     "R7/S3 only functions that take the key by value may return holding a lock; no API takes a reference to the key instead.",
+     "R7/S3 only functions that take the key by value may return holding a lock; no API takes a reference to the key instead; "
+     "K1/K2 the key these rules follow is the only one: a second, transient or stand-in ThreadKey built anywhere re-arms the "
+     "thread's flag when it is dropped and hands the thread a key while its guard is still alive.",
      "the single-thread history enumeration itself (the rules are per-API invariants that make every history safe).")
 
 prop("C04",
@@ -227,11 +230,13 @@ prop("C10",
      "the history model (re-poison after clear, cross-thread visibility beyond Relaxed atomics).")
 
 prop("C11",
-     [ts2.rule_G1, ts2.rule_G2, LEAK_SCOPED, ts2.rule_R3key, st.rule_M1, sig.rule_R2, ts.rule_M4, ts2.rule_E4r, st.rule_M2, LEAK_ALL],
+     [ts2.rule_G1, ts2.rule_G2, LEAK_SCOPED, ts2.rule_R3key, st.rule_M1, sig.rule_R2, ts.rule_M4, ts2.rule_E4r, st.rule_M2, LEAK_ALL, cg.rule_K4],
      "G1 handle_unwind is catch -> handler -> resume (no swallowed panic, handler only on unwind); G2 catch_unwind is used nowhere "
      "else; G3 every scoped function holds nothing at every unwinding exit (its handler releases the acquired receiver once, in "
      "mode); G4 RAII holds release in Drop and the key field drops after them; G5 the key is still owned by the frame while the "
-     "closure runs; M2 every release op of a leaf lock reaches its raw lock on every path (also when the lock has been killed).",
+     "closure runs; M2 every release op of a leaf lock reaches its raw lock on every path (also when the lock has been killed); "
+     "K4 a key a function makes itself (flag moved out of its free state) is either in the returned value or given up again on "
+     "every exit, unwinding exits included.",
      "progress of waiting threads (schedules).")
 
 prop("C12",
